@@ -40,6 +40,10 @@ def spectrum_obs(S, sym):
     return o, ok_nonneg, ok_sorted
 
 
+class _Defective(Exception):
+    pass
+
+
 def factor_events(R, a_idx, rng, sym, spectrum=None, herm=False, halves=None, only=None):
     """ run factorisations of register a_idx with sampled options; append events to R.ev (results are not registers) """
     import yastn
@@ -131,10 +135,22 @@ def factor_events(R, a_idx, rng, sym, spectrum=None, herm=False, halves=None, on
             elif op == 'eig':
                 # general eigendecomposition a = U S V with V U = 1.  Whether the spectrum of a sector is degenerate is recorded: left and right eigenvectors of a
                 # degenerate subspace are paired arbitrarily by LAPACK and the library only rescales the pairs (known finding)
-                am = a.transpose(axes=tuple(la + lb)).fuse_legs(axes=(tuple(range(len(la))), tuple(range(len(la), len(la) + len(lb)))), mode='hard')
+                # (meta-fused legs are unfused first: fusing ((l3 l4) l5) and (l0 l1 l2) orders the basis of rows and columns differently, which would not be a similarity)
+                am = a.transpose(axes=tuple(la + lb))
+                nrow = sum(am.mfs[i][0] for i in range(len(la)))
+                for _ in range(4):
+                    mf = [i for i in range(am.ndim) if am.mfs[i][0] > 1]
+                    if not mf:
+                        break
+                    am = am.unfuse_legs(axes=tuple(mf))
+                am = am.fuse_legs(axes=(tuple(range(nrow)), tuple(range(nrow, am.ndim))), mode='hard')
                 e['degenerate'] = False
                 for t_ in am.get_blocks_charge():
-                    w = np.linalg.eigvals(np.asarray(am[t_]))
+                    w, vr = np.linalg.eig(np.asarray(am[t_]))
+                    if len(w) > 1 and np.linalg.cond(vr) > 1e6:
+                        # a defective (non-diagonalisable) or nearly defective sector, e.g. an integer Jordan block: no eigendecomposition a = U S U^-1 exists (or only a hopelessly
+                        # ill-conditioned one), so the property claims nothing and the library's ValueError is the right answer; not an event (counted by the caller)
+                        raise _Defective()
                     if len(w) > 1:
                         gaps = np.abs(w[:, None] - w[None, :]) + np.eye(len(w)) * 1e300
                         if float(np.min(gaps)) < 1e-6 * max(1.0, float(np.max(np.abs(w)))):
@@ -164,6 +180,9 @@ def factor_events(R, a_idx, rng, sym, spectrum=None, herm=False, halves=None, on
             e['err'] = str(ex)[:80]
         except Machinery:
             raise
+        except _Defective:
+            R.defective = getattr(R, 'defective', 0) + 1
+            continue
         except Exception as ex:  # noqa
             e['out'] = 'raised %s: %s' % (type(ex).__name__, str(ex)[:60])
         if op == 'svd' and spectrum is not None and e['out'] == 'ok' and len(la) == 1:
@@ -385,6 +404,7 @@ def main(tier, seed, replay=None):
     rep.cov['traces_validated_against_impl'] = len(traces)
     rep.cov['evaluations'] = nev
     rep.cov['distinct_nontrivial'] = sum(1 for e in fe if e['out'] == 'ok' and e['L'].get('raw', {}).get('t'))
+    rep.cov['parts']['eig_skipped_on_defective_sectors (no eigendecomposition exists: not a claim)'] = sum(t.get('skipped_defective', 0) for t in traces)
     rep.cov['parts'].update({'events_by_op': kinds, 'factorisations': len(fe), 'with_prescribed_spectrum': sum(1 for e in fe if e['spectrum']),
                              'on_fused_or_lazy_operands': sum(1 for t in traces for i, e in enumerate(t['ev']) if e['op'] in ('svd', 'qr', 'eigh', 'eig') and e['a'] > 1),
                              'tolerance_named_in_check': TOL})
